@@ -57,7 +57,7 @@ def gen_params(rng, tier):
                 sa, sb = [], []
             else:
                 sb = [[d, w] for d, w in gen.gen_stream(rng, spec2, rng.randint(0, 6), gate_rate=0.05)] if rng.random() < 0.5 else copy.deepcopy(sa)
-    return {"spec": spec, "spec2": spec2, "sa": sa, "sb": sb, "desc": desc}
+    return {"spec": spec, "spec2": spec2, "sa": sa, "sb": sb, "desc": desc, "wild_seed": rng.randint(0, 10**9)}
 
 
 def build(p):
@@ -119,8 +119,51 @@ def _eq_content(py, replies, h1, h2, i, desc, with_tol=True, must_equal=False):
     return None
 
 
+def wild_reload_check(p):
+    """Implementation-level (non-dyadic data, so outside the exact model): an aggregator in immutable form — a JSON reload,
+    the sum of two reloads, a reload scaled by a factor — equals the reload of its own serialisation, in both orders, at
+    tolerance 0.  (What toJson writes is what == compares, so rounding inside the merge must not separate the two.)"""
+    import random
+
+    from histogrammar import Factory
+
+    rng = random.Random(p.get("wild_seed", 0))
+    spec = p["spec"]
+    msgs = []
+
+    def wild_rows(n):
+        rows = []
+        for _ in range(n):
+            d = [round(rng.uniform(-5, 5), 1) for _ in range(4)] + [rng.choice(gen.CATS), rng.random() < 0.6,
+                                                                     [round(rng.uniform(-2, 2), 1), round(rng.uniform(-2, 2), 1)], rng.choice(gen.CATS)]
+            rows.append((d, rng.choice([1.0, 1.0, 2.0, 0.5, 0.3])))
+        return rows
+
+    try:
+        a, b = gen.build(spec), gen.build(spec)
+        for d, w in wild_rows(rng.randint(1, 6)):
+            a.fill(d, w)
+        for d, w in wild_rows(rng.randint(0, 5)):
+            b.fill(d, w)
+    except Exception:  # noqa: BLE001 - e.g. a Bag of strings over a numeric column: not what this check is about
+        return msgs
+    ra, rb = Factory.fromJson(a.toJson()), Factory.fromJson(b.toJson())
+    for name, m in (("reload", ra), ("reload + reload", ra + rb), ("reload * 1.2", ra * 1.2), ("(reload + reload) * 0.7", (ra + rb) * 0.7)):
+        rm = Factory.fromJson(m.toJson())
+        if m.toJson() != rm.toJson():
+            msgs.append("%s: the reload of its serialisation serialises differently" % name)
+        elif not (m == rm) or not (rm == m) or (m != rm):
+            msgs.append("%s (immutable form, non-dyadic data) does not equal the reload of its own serialisation although both "
+                        "serialise identically" % name)
+    return msgs
+
+
 def oracle(case, py, replies):
-    return common.eval_expect(case, py, replies)
+    out = common.eval_expect(case, py, replies)
+    from runner import dec
+
+    out += wild_reload_check(dec(case["params"]))
+    return out
 
 
 stats = common.basic_stats
